@@ -85,7 +85,7 @@ func c06WithLockExempts(c *Ctx, R string, specs []GuardSpec, pkgs []string) []Gu
 	}
 	var fns []*ssa.Function
 	for _, p := range pkgs {
-		fns = append(fns, c.P.FuncsOfPkg(p)...)
+		fns = append(fns, c05FuncsOfPkg(c.P, p)...)
 	}
 	out := make([]GuardSpec, len(specs))
 	for i, sp := range specs {
@@ -105,66 +105,57 @@ func c06WithLockExempts(c *Ctx, R string, specs []GuardSpec, pkgs []string) []Gu
 			if f.Parent() == nil {
 				if !referenced[f] && f.Object() != nil && !f.Object().Exported() && f.Name() != "init" {
 					ex[FnName(f)] = "dead code: nothing calls or references this unexported function"
+				} else if why, ok := c06CalledUnderLock(all, f, accs, sp.Lock, 0); ok {
+					ex[FnName(f)] = why
+					c.OK(R, FnName(f)+"|"+sp.Type+"|every-caller-holds-lock", f.Pos(), why)
+				} else if site := c06CalledFromYieldBody(all, f); site != nil && func() bool {
+					// only when f relies on its callers for the lock
+					held := heldAt(f, heldSet{})
+					for _, a := range accs {
+						if ap := accessPath(a.Base); held[a.At][ap+"."+sp.Lock] < a.Mode && !pathIsFresh(ap) {
+							return true
+						}
+					}
+					return false
+				}() {
+					// a call from the body of a range-over-func loop is invisible to the shared LockCheck (synthetic
+					// functions are not enumerated): fail closed here
+					c.Violation(R, FnName(f)+"|"+sp.Type+"|called-from-loop-body-without-lock", site.Pos(),
+						FnName(f)+" touches "+sp.Type+" state and is called from the body of a range-over-func loop ("+FnName(site.Parent())+") that is not shown to run while "+sp.Lock+" is held")
 				}
 				continue
 			}
 			// closure
-			par := f.Parent()
-			var mc *ssa.MakeClosure
-			AllInstrs(par, func(in ssa.Instruction) {
-				if m, ok := in.(*ssa.MakeClosure); ok && m.Fn == ssa.Value(f) {
-					mc = m
-				}
-			})
-			if mc == nil {
-				continue
-			}
-			sync := true
-			var uses []ssa.Instruction
-			for _, r := range *mc.Referrers() {
-				switch u := r.(type) {
-				case *ssa.Call:
-					uses = append(uses, u)
-				case *ssa.DebugRef:
-				default:
-					sync = false
-				}
-			}
-			if !sync {
-				continue
-			}
-			held := heldAt(par, heldSet{})
 			okAll := true
 			need := modeR
+			why := ""
 			for _, a := range accs {
 				if a.Mode > need {
 					need = a.Mode
 				}
-				// the guarded object as the parent sees it
-				var base ssa.Value
-				if ld, ok := a.Base.(*ssa.UnOp); ok {
-					if fv, ok := ld.X.(*ssa.FreeVar); ok {
-						if bs := freeVarBindings(fv); len(bs) == 1 {
-							if al, ok := bs[0].(*ssa.Alloc); ok {
-								base = c05SingleStoredValue(al)
-							}
-						}
-					}
-				}
-				if base == nil {
+				w, ok := c06ClosureUnderLock(all, f, a.Base, sp.Lock, a.Mode, 0)
+				if !ok {
 					okAll = false
-					continue
 				}
-				lp := accessPath(base) + "." + sp.Lock
-				for _, at := range append([]ssa.Instruction{mc}, uses...) {
-					if held[at][lp] < a.Mode {
-						okAll = false
-					}
-				}
+				why = w
 			}
 			if okAll {
-				ex[FnName(f)] = "closure that runs synchronously inside " + FnName(par) + " while it holds " + sp.Lock
-				c.OK(R, FnName(f)+"|"+sp.Type+"|closure-runs-under-parents-lock", mc.Pos(), "created and used only where "+FnName(par)+" holds "+sp.Lock+" in "+modeName(need, "read", "write")+" mode; never started as a goroutine or stored")
+				ex[FnName(f)] = "closure that runs only " + why
+				c.OK(R, FnName(f)+"|"+sp.Type+"|closure-runs-under-parents-lock", f.Pos(), "runs only "+why+" ("+modeName(need, "read", "write")+" mode); never started as a goroutine or stored")
+			} else if f.Synthetic == c05YieldSynthetic {
+				// the body of a range-over-func statement: the shared LockCheck does not enumerate synthetic
+				// functions, so an access here that is not proved to run under the lock is reported from here
+				held := heldAt(f, heldSet{})
+				for _, a := range accs {
+					if held[a.At][accessPath(a.Base)+"."+sp.Lock] >= a.Mode {
+						continue
+					}
+					if _, ok := c06ClosureUnderLock(all, f, a.Base, sp.Lock, a.Mode, 0); ok {
+						continue
+					}
+					c.Violation(R, FnName(f)+"|"+sp.Type+"."+a.Field+"|"+modeName(a.Mode, "R", "W"), a.At.Pos(),
+						modeName(a.Mode, "read", "write")+" of "+sp.Type+"."+a.Field+" in the body of a range-over-func loop that is not shown to run while "+sp.Lock+" is held: a concurrent operation can interleave")
+				}
 			}
 		}
 		sp.Exempt = ex
@@ -173,13 +164,314 @@ func c06WithLockExempts(c *Ctx, R string, specs []GuardSpec, pkgs []string) []Gu
 	return out
 }
 
+// c06ClosureUnderLock: every execution of closure f happens while the lock of
+// the guarded object `base` (a captured variable of f) is held in at least
+// `mode`:
+//   - f is created and only called / passed to calls (never stored, returned,
+//     started as a goroutine) at points where its parent holds the lock, or
+//     the parent is itself such a closure (range-over-func bodies);
+//   - f is an iterator that an unexported function returns, and every caller
+//     consumes the iterator on the spot (range-over-func statement, slices.* /
+//     maps.* collectors) while holding the lock of the object it passed.
+func c06ClosureUnderLock(all []*ssa.Function, f *ssa.Function, base ssa.Value, lock string, mode lockMode, d int) (string, bool) {
+	par := f.Parent()
+	if par == nil || d > 3 {
+		return "", false
+	}
+	ld, ok := base.(*ssa.UnOp)
+	if !ok || ld.Op != token.MUL {
+		return "", false
+	}
+	fv, ok := ld.X.(*ssa.FreeVar)
+	if !ok || fv.Parent() != f {
+		return "", false
+	}
+	bs := freeVarBindings(fv)
+	if len(bs) != 1 {
+		return "", false
+	}
+	var pbase ssa.Value
+	switch b := bs[0].(type) {
+	case *ssa.Alloc:
+		pbase = c05SingleStoredValue(b)
+	case *ssa.FreeVar:
+		pbase = &ssa.UnOp{Op: token.MUL, X: b}
+	}
+	if pbase == nil {
+		return "", false
+	}
+	var mc *ssa.MakeClosure
+	AllInstrs(par, func(in ssa.Instruction) {
+		if m, ok := in.(*ssa.MakeClosure); ok && m.Fn == ssa.Value(f) {
+			mc = m
+		}
+	})
+	if mc == nil {
+		return "", false
+	}
+	// uses of a function value, looking through representation changes
+	var usesOf func(v ssa.Value) (calls []ssa.Instruction, returned, other bool)
+	usesOf = func(v ssa.Value) (calls []ssa.Instruction, returned, other bool) {
+		for _, r := range *v.Referrers() {
+			switch u := r.(type) {
+			case *ssa.Call:
+				calls = append(calls, u)
+			case *ssa.DebugRef:
+			case *ssa.Return:
+				returned = true
+			case *ssa.ChangeType:
+				c2, r2, o2 := usesOf(u)
+				calls = append(calls, c2...)
+				returned = returned || r2
+				other = other || o2
+			default:
+				other = true
+			}
+		}
+		return
+	}
+	uses, returned, other := usesOf(mc)
+	if other {
+		return "", false
+	}
+	if !returned {
+		held := heldAt(par, heldSet{})
+		lp := accessPath(pbase) + "." + lock
+		okHeld := true
+		for _, at := range append([]ssa.Instruction{mc}, uses...) {
+			if held[at][lp] < mode {
+				okHeld = false
+			}
+		}
+		if okHeld {
+			return "synchronously inside " + FnName(par) + " while it holds " + lock, true
+		}
+		if par.Parent() != nil {
+			if w, ok := c06ClosureUnderLock(all, par, pbase, lock, mode, d+1); ok {
+				return "synchronously inside " + FnName(par) + ", which runs only " + w, true
+			}
+			return "", false
+		}
+		// the parent is an unexported function that relies on its callers for the lock of its own parameter
+		if prm := c05ParamOf(pbase); prm != nil && prm.Parent() == par {
+			for i, q := range par.Params {
+				if q == prm {
+					if ok, _ := c06CallersHold(all, par, i, lock, mode, d+1); ok {
+						return "synchronously inside " + FnName(par) + ", every caller of which holds " + lock, true
+					}
+				}
+			}
+		}
+		return "", false
+	}
+	if len(uses) > 0 || par.Parent() != nil {
+		return "", false
+	}
+	prm, ok := pbase.(*ssa.Parameter)
+	if !ok || par.Object() == nil || par.Object().Exported() {
+		return "", false
+	}
+	idx := -1
+	for i, q := range par.Params {
+		if q == prm {
+			idx = i
+		}
+	}
+	if idx < 0 {
+		return "", false
+	}
+	n, good := 0, true
+	for _, g := range all {
+		var held map[ssa.Instruction]heldSet
+		AllInstrs(g, func(in ssa.Instruction) {
+			for _, op := range in.Operands(nil) {
+				if *op == ssa.Value(par) {
+					if ci, isCall := in.(ssa.CallInstruction); !isCall || ci.Common().Value != ssa.Value(par) {
+						good = false // used as a value
+					}
+				}
+			}
+			ci, isCall := in.(ssa.CallInstruction)
+			if !isCall {
+				return
+			}
+			callee := StaticCallee(ci)
+			if callee == nil || (callee != par && callee.Origin() != par) {
+				return
+			}
+			cs, isC := in.(*ssa.Call)
+			if !isC || idx >= len(cs.Call.Args) {
+				good = false
+				return
+			}
+			n++
+			cu, ret, oth := usesOf(cs)
+			if ret || oth || len(cu) == 0 {
+				good = false
+				return
+			}
+			if held == nil {
+				held = heldAt(g, heldSet{})
+			}
+			lp := accessPath(cs.Call.Args[idx]) + "." + lock
+			for _, u := range cu {
+				uc := u.(*ssa.Call)
+				consumed := strip(uc.Call.Value) == ssa.Value(cs) || func() bool {
+					if cv, isCT := uc.Call.Value.(*ssa.ChangeType); isCT && strip(cv) == ssa.Value(cs) {
+						return true
+					}
+					h := StaticCallee(uc)
+					return h != nil && (fnPkgPath(h) == "slices" || fnPkgPath(h) == "maps")
+				}()
+				if !consumed || held[u][lp] < mode {
+					good = false
+				}
+			}
+		})
+	}
+	if !good || n == 0 {
+		return "", false
+	}
+	return "as an iterator that every caller of " + FnName(par) + " consumes on the spot while holding " + lock, true
+}
+
+// c06CalledFromYieldBody: a static call of f located in the body of a range-over-func loop.
+func c06CalledFromYieldBody(all []*ssa.Function, f *ssa.Function) ssa.Instruction {
+	var site ssa.Instruction
+	for _, g := range all {
+		if g.Synthetic != c05YieldSynthetic {
+			continue
+		}
+		AllInstrs(g, func(in ssa.Instruction) {
+			if ci, ok := in.(ssa.CallInstruction); ok && StaticCallee(ci) == f && site == nil {
+				site = in
+			}
+		})
+	}
+	return site
+}
+
+// c06CalledUnderLock: unexported function f (never used as a value) touches
+// the guarded fields of one of its parameters, and every call of f happens
+// while the lock of the object passed is held: in the caller itself, in a
+// closure that runs only under that lock (c06ClosureUnderLock), or in the
+// callers of an unexported caller that passes its own parameter on.  Only
+// claimed when some call comes from a closure — plain caller chains are
+// LockCheck's own business.
+func c06CalledUnderLock(all []*ssa.Function, f *ssa.Function, accs []fieldAccess, lock string, depth int) (string, bool) {
+	if f.Object() == nil || f.Object().Exported() || depth > 2 {
+		return "", false
+	}
+	need := modeR
+	pidx := -1
+	for _, a := range accs {
+		if a.Mode > need {
+			need = a.Mode
+		}
+		p := c05ParamOf(a.Base)
+		if p == nil || p.Parent() != f {
+			return "", false
+		}
+		for i, q := range f.Params {
+			if q == p {
+				if pidx >= 0 && pidx != i {
+					return "", false
+				}
+				pidx = i
+			}
+		}
+	}
+	if pidx < 0 {
+		return "", false
+	}
+	ok, via := c06CallersHold(all, f, pidx, lock, need, 0)
+	if !ok || !via {
+		return "", false
+	}
+	return "every call of " + FnName(f) + " happens while " + lock + " of the object passed is held (" + modeName(need, "read", "write") + " mode), some from closures that run only under that lock", true
+}
+
+// c06CallersHold: every static call of unexported function f (never used as
+// a value) passes as argument #pidx an object whose lock is held at the call:
+// in the caller itself, in a closure that runs only under that lock, or —
+// when an unexported caller passes its own parameter on — in its callers.
+// viaClosure: some call site is in a closure.
+func c06CallersHold(all []*ssa.Function, f *ssa.Function, pidx int, lock string, need lockMode, d int) (bool, bool) {
+	if d > 3 || f.Object() == nil || f.Object().Exported() {
+		return false, false
+	}
+	n, good, via := 0, true, false
+	for _, g := range all {
+		var held map[ssa.Instruction]heldSet
+		AllInstrs(g, func(in ssa.Instruction) {
+			ci, isCall := in.(ssa.CallInstruction)
+			if !isCall || StaticCallee(ci) != f {
+				for _, op := range in.Operands(nil) {
+					if *op == ssa.Value(f) && !(isCall && ci.Common().Value == ssa.Value(f)) {
+						good = false // used as a value
+					}
+				}
+				return
+			}
+			n++
+			if _, plain := in.(*ssa.Call); !plain || pidx >= len(ci.Common().Args) {
+				good = false
+				return
+			}
+			arg := ci.Common().Args[pidx]
+			ap := accessPath(arg) + "." + lock
+			if held == nil {
+				held = heldAt(g, heldSet{})
+			}
+			if held[in][ap] >= need || pathIsFresh(ap) {
+				return
+			}
+			if g.Parent() != nil {
+				if _, ok := c06ClosureUnderLock(all, g, arg, lock, need, d+1); ok {
+					via = true
+					return
+				}
+				good = false
+				return
+			}
+			if p := c05ParamOf(arg); p != nil && p.Parent() == g {
+				for i, q := range g.Params {
+					if q == p {
+						ok, v := c06CallersHold(all, g, i, lock, need, d+1)
+						if !ok {
+							good = false
+						}
+						via = via || v
+						return
+					}
+				}
+			}
+			good = false
+		})
+	}
+	return good && n > 0, via
+}
+
 // c06UnsafeExempt: the methods of the lock-free view type (found by role: the
 // struct that wraps a *Store) that read the store's fields without s.sync.
 func c06UnsafeExempt() map[string]string {
 	out := map[string]string{}
-	if t := c05Cur.T("oci.unsafeStore"); t != "" {
-		out["(*"+t+").Fetch"] = c06UnsafeWhy
-		out["(*"+t+").Predecessors"] = c06UnsafeWhy
+	t := c05Cur.T("oci.unsafeStore")
+	if t == "" {
+		return out
+	}
+	// every declared method of the view, whatever its receiver form (T or *T)
+	for _, f := range c05FuncsOfPkg(c05Cur.p, "content/oci") {
+		if f.Parent() != nil || f.Synthetic != "" || f.Signature.Recv() == nil {
+			continue
+		}
+		rt := f.Signature.Recv().Type()
+		if pt, ok := rt.(*types.Pointer); ok {
+			rt = pt.Elem()
+		}
+		if n, ok := rt.(*types.Named); ok && n.Obj().Pkg() != nil && short(n.Obj().Pkg().Path()+"."+n.Obj().Name()) == t {
+			out[FnName(f)] = c06UnsafeWhy
+		}
 	}
 	return out
 }
@@ -227,7 +519,7 @@ func c06R1(c *Ctx) {
 // W mode at instruction `at` of method f of oci.Store — locally, or at every
 // static call site of f (transitively, unexported helpers only)?
 func c06StoreLockHeld(c *Ctx) func(f *ssa.Function, at ssa.Instruction, depth int) (bool, string) {
-	fns := c.P.FuncsOfPkg("content/oci")
+	fns := c05FuncsOfPkg(c.P, "content/oci")
 	heldC := map[*ssa.Function]map[ssa.Instruction]heldSet{}
 	held := func(f *ssa.Function) map[ssa.Instruction]heldSet {
 		if h, ok := heldC[f]; ok {
@@ -262,7 +554,7 @@ func c06StoreLockHeld(c *Ctx) func(f *ssa.Function, at ssa.Instruction, depth in
 				if _, isPlain := call.(*ssa.Call); !isPlain {
 					return false, "called via go/defer from " + FnName(g)
 				}
-				if len(g.Params) == 0 || strip(call.Common().Args[0]) != ssa.Value(g.Params[0]) {
+				if len(g.Params) == 0 || c05ParamOf(call.Common().Args[0]) != g.Params[0] {
 					return false, "called from " + FnName(g) + " on a different store value"
 				}
 				if ok, why := holds(g, call.(ssa.Instruction), depth+1); !ok {
@@ -279,7 +571,7 @@ func c06StoreLockHeld(c *Ctx) func(f *ssa.Function, at ssa.Instruction, depth in
 }
 
 func c06BlobRemovalExclusive(c *Ctx, R string) {
-	fns := c.P.FuncsOfPkg("content/oci")
+	fns := c05FuncsOfPkg(c.P, "content/oci")
 	holds := c06StoreLockHeld(c)
 	n := 0
 	for _, f := range fns {
@@ -328,35 +620,48 @@ func c06UnsafeStore(c *Ctx, R string) {
 				held = heldAt(f, heldSet{})
 			}
 			key := FnName(f) + "|unsafeStore-constructed-under-exclusive-lock"
-			// the embedded *Store stored into the literal
+			// the embedded *Store stored into the literal; where the view (pointer or copied value) flows
 			var inner ssa.Value
 			var uses []*ssa.Call
 			escapes := ""
-			for _, r := range *al.Referrers() {
-				switch u := r.(type) {
-				case *ssa.FieldAddr:
-					for _, r2 := range *u.Referrers() {
-						if st, ok := r2.(*ssa.Store); ok && st.Addr == ssa.Value(u) {
-							inner = st.Val
+			var flows func(v ssa.Value, d int)
+			flows = func(v ssa.Value, d int) {
+				for _, r := range *v.Referrers() {
+					switch u := r.(type) {
+					case *ssa.FieldAddr:
+						for _, r2 := range *u.Referrers() {
+							if st, ok := r2.(*ssa.Store); ok && st.Addr == ssa.Value(u) {
+								inner = st.Val
+							}
+						}
+					case *ssa.MakeInterface:
+						if d < 4 {
+							flows(u, d+1)
+						}
+					case *ssa.ChangeType:
+						if d < 4 {
+							flows(u, d+1)
+						}
+					case *ssa.UnOp:
+						// the literal is used by value: follow the copy
+						if u.Op == token.MUL && u.X == v && d < 4 {
+							flows(u, d+1)
+						} else {
+							escapes = fmt.Sprintf("used by %T", u)
+						}
+					case *ssa.Call:
+						uses = append(uses, u)
+					case *ssa.DebugRef:
+					default:
+						if _, isIface := v.(*ssa.MakeInterface); isIface {
+							escapes = fmt.Sprintf("converted to an interface that flows into %T", u)
+						} else {
+							escapes = fmt.Sprintf("used by %T", u)
 						}
 					}
-				case *ssa.MakeInterface:
-					for _, r2 := range *u.Referrers() {
-						switch x := r2.(type) {
-						case *ssa.Call:
-							uses = append(uses, x)
-						case *ssa.DebugRef:
-						default:
-							escapes = fmt.Sprintf("converted to an interface that flows into %T", x)
-						}
-					}
-				case *ssa.Call:
-					uses = append(uses, u)
-				case *ssa.DebugRef:
-				default:
-					escapes = fmt.Sprintf("used by %T", u)
 				}
 			}
+			flows(al, 0)
 			if inner == nil {
 				c.Undecided(R, key, al.Pos(), "cannot find the *Store embedded into the unsafeStore literal")
 				return
@@ -398,7 +703,7 @@ func c06UnsafeStore(c *Ctx, R string) {
 func c06ConstructionOnlyFns(c *Ctx) map[*ssa.Function]bool {
 	out := map[*ssa.Function]bool{}
 	all := c05ModuleFuncs(c.P)
-	for _, fn := range c.P.FuncsOfPkg("content/oci") {
+	for _, fn := range c05FuncsOfPkg(c.P, "content/oci") {
 		if fn.Parent() != nil || fn.Object() == nil || fn.Object().Exported() || fn.Signature.Recv() == nil {
 			continue
 		}
@@ -1330,6 +1635,7 @@ func c06IsResolvedDigest(v ssa.Value, resolves []ssa.CallInstruction) bool {
 
 var c06Mutants = []Mutant{
 	// R1
+	{Name: "graph-yield-body-reads-nodes-unlocked", File: "internal/graph/memory.go", Old: "\tfor k := range set {\n\t\tres = append(res, m.nodes[k])\n\t}\n", New: "\tm.lock.RUnlock()\n\tfor k := range func(yield func(descriptor.Descriptor) bool) {\n\t\tfor k := range set {\n\t\t\tif !yield(k) {\n\t\t\t\treturn\n\t\t\t}\n\t\t}\n\t} {\n\t\tres = append(res, m.nodes[k])\n\t}\n\tm.lock.RLock()\n", Expect: "C06.R1.guarded-by|(*~/internal/graph.Memory).Predecessors$"},
 	{Name: "resolver-tag-under-read-lock", File: "internal/resolver/memory.go", Old: "func (m *Memory) Tag(_ context.Context, desc ocispec.Descriptor, reference string) error {\n\tm.lock.Lock()\n\tdefer m.lock.Unlock()\n", New: "func (m *Memory) Tag(_ context.Context, desc ocispec.Descriptor, reference string) error {\n\tm.lock.RLock()\n\tdefer m.lock.RUnlock()\n", Expect: "C06.R1.guarded-by|(*~/internal/resolver.Memory).Tag|"},
 	{Name: "resolver-map-without-lock", File: "internal/resolver/memory.go", Old: "\tm.lock.RLock()\n\tdefer m.lock.RUnlock()\n\n\treturn maps.Clone(m.index)", New: "\treturn maps.Clone(m.index)", Expect: "C06.R1.guarded-by|(*~/internal/resolver.Memory).Map|"},
 	{Name: "oci-delete-under-read-lock", File: "content/oci/oci.go", Old: "\ts.sync.Lock()\n\tdefer s.sync.Unlock()\n\n\tdeleteQueue := []ocispec.Descriptor{target}", New: "\ts.sync.RLock()\n\tdefer s.sync.RUnlock()\n\n\tdeleteQueue := []ocispec.Descriptor{target}", Expect: "C06.R1.guarded-by|(*~/content/oci.Store).Delete|unsafeStore-constructed-under-exclusive-lock"},
